@@ -290,6 +290,16 @@ pub fn check_text(text: &str, v: &J) -> CheckResult {
     if let Err(m) = agrees(&docs[0], v, "$") {
         fail!("value-differs", "{m}; text: {text:?}");
     }
+    // the same through the string-slice back-end (load_from_str reads through the iterator back-end)
+    let mut parser = saphyr_parser::Parser::new_from_str(text);
+    let docs = match Yaml::load_from_parser(&mut parser) {
+        Ok(d) => d,
+        Err(e) => fail!("load-error", "JSON text rejected through Parser::new_from_str: {e}; text: {text:?}"),
+    };
+    ensure!(docs.len() == 1, "doc-count", "JSON text loaded as {} documents through Parser::new_from_str; text: {text:?}", docs.len());
+    if let Err(m) = agrees(&docs[0], v, "$") {
+        fail!("value-differs", "through Parser::new_from_str: {m}; text: {text:?}");
+    }
     Ok(())
 }
 
@@ -487,7 +497,7 @@ impl Property for C13P {
         "JSON values from a proptest prop_recursive generator (objects with distinct hostile string keys, arrays, strings over all \
          escapes / indicators / raw non-ASCII / control characters, numbers incl. i64 boundaries, > i64, fractions, exponents, -0; depth \
          <= 8, plus nesting chains to depth 200) serialised by a choice-stream-driven writer: compact, pretty (2 / 4 / tab), or random \
-         runs of space, tab, LF, CRLF around every token; per-character choice of escape vs literal. Oracle: Yaml::load_from_str gives \
+         runs of space, tab, LF, CRLF around every token; per-character choice of escape vs literal. Oracle: Yaml::load_from_str and Yaml::load_from_parser(Parser::new_from_str) give \
          one document equal to the generating value (objects -> mappings with string keys in order, numbers -> Integer / FloatingPoint of \
          exactly the same value). Non-trivial = (depth >= 2 or a string with a non-alphanumeric char or a non-integer number) and a \
          non-compact layout; distinct by serialised text."
